@@ -180,7 +180,7 @@ def run(ctx):
             edges.append([brng.choice(graphs.ECLS_X), i, i, 0])          # a self-loop on every member
             edges.append([brng.choice(graphs.ECLS_X), i, (i * 7 + 1) % nbig, 1])
         specs.append({"verts": ["Vertex"] * nbig, "edges": edges, "uni": list(range(nbig))})
-    n_random = 12000 if quick else 30000
+    n_random = ctx.n(12000 if quick else 30000)
     k = 0
     for n in range(len(specs) + n_random):
         if n < len(specs):
